@@ -562,6 +562,12 @@ _PM = "packages/llama-index-workflows/src/workflows/context/state_store.py"
 _PS = "packages/llama-agents-server/src/llama_agents/server/_store/sqlite/sqlite_state_store.py"
 _PE = "packages/llama-index-workflows/src/workflows/events.py"
 
+# Text of SqliteStateStore.set_state on the repaired tree, and its shape before the repair (unlocked, unmerged write on the
+# empty-row path).  Reverting the repair must be detected: C19.R1 here, C20.R1 in c20.py.
+_SET_STATE_NOW = '        async with self._lock:\n            current_state = self._load_state()\n            merged = merge_state(current_state, state)\n            self._save_state(merged)  # type: ignore[arg-type]\n'
+_SET_STATE_PRE_FIX = '        conn = self._connect()\n        try:\n            cursor = conn.cursor()\n            cursor.execute(\n                "SELECT state_json FROM workflow_state WHERE run_id = ?",\n                (self._run_id,),\n            )\n            row = cursor.fetchone()\n\n            if row is None:\n                self._save_state(state, conn)\n                conn.commit()\n                return\n\n            current_state = self._deserialize_state(row[0])\n            merged = merge_state(current_state, state)\n            self._save_state(merged, conn)  # type: ignore[arg-type]\n            conn.commit()\n        finally:\n            self._release(conn)\n'
+_HOOK_COPY = "        if not deep:\n            # pydantic's shallow copy shares private attribute values; the dynamic\n            # fields live in `_data`, so give the copy its own top-level dict.\n            copied._data = dict(self._data)\n"
+
 TWINS = [
     # ---- R1 breaking
     Twin("sqlite get drops the default", _PS, "return get_by_path(state, path, default)", "return get_by_path(state, path)", "C19.R1"),
@@ -570,6 +576,8 @@ TWINS = [
     Twin("memory set_state replaces without merging", _PM, "            self._state = merge_state(self._state, state)", "            self._state = state", "C19.R1"),
     Twin("memory get swaps default and path", _PM, "return get_by_path(self._state, path, default)", "return get_by_path(self._state, default, path)", "C19.R1"),
     Twin("sqlite clear renamed away from the protocol", _PS, "    async def clear(self) -> None:", "    async def reset(self) -> None:", "C19.R1"),
+    Twin("pre-fix: sqlite set_state saves the incoming object unmerged when the row is missing", _PS, _SET_STATE_NOW, _SET_STATE_PRE_FIX, "C19.R1"),
+    Twin("sqlite set_state saves the incoming object, merge result unused", _PS, "            self._save_state(merged)  # type: ignore[arg-type]", "            self._save_state(state)", "C19.R1"),
     # ---- R1 benign
     Twin("benign: sqlite get inlined, keyword default", _PS, "        state = self._load_state()\n        return get_by_path(state, path, default)",
          "        return get_by_path(self._load_state(), path, default=default)", None),
@@ -577,22 +585,23 @@ TWINS = [
          "            merged = merge_state(self._state, state)\n            self._state = merged", None),
     Twin("benign: memory clear through a local class", _PM, "        await self.set_state(create_cleared_state(self._state.__class__))",
          "        cleared = create_cleared_state(type(self._state))\n        await self.set_state(cleared)", None),
-    Twin("benign: sqlite set_state merges on the empty-row path too (repair)", _PS, "                self._save_state(state, conn)\n                conn.commit()\n                return\n",
-         "                self._save_state(merge_state(self._create_default_state(), state), conn)\n                conn.commit()\n                return\n", None),
+    Twin("benign: sqlite set_state merge inlined", _PS, "            current_state = self._load_state()\n            merged = merge_state(current_state, state)\n            self._save_state(merged)",
+         "            self._save_state(merge_state(self._load_state(), state))", None),
     # ---- R2 breaking
     Twin("memory get_state returns the stored object", _PM, "        return self._state.model_copy()", "        return self._state", "C19.R2"),
     Twin("sqlite get_state memoises the loaded object", _PS, "        state = self._load_state()\n        return state.model_copy()",
          "        if getattr(self, \"_snapshot\", None) is None:\n            self._snapshot = self._load_state()\n        return self._snapshot", "C19.R2"),
-    Twin("sqlite get_state shallow-copies a memoised object", _PS, "        state = self._load_state()\n        return state.model_copy()",
-         "        if getattr(self, \"_snapshot\", None) is None:\n            self._snapshot = self._load_state()\n        return self._snapshot.model_copy()", "C19.R2"),
+    Twin("pre-fix: DictLikeModel copy hook does not re-create _data", _PE, _HOOK_COPY, "", "C19.R2"),
+    Twin("copy hook assigns the same dict", _PE, "            copied._data = dict(self._data)", "            copied._data = self._data", "C19.R2"),
+    Twin("copy hook copies into a local only", _PE, "            copied._data = dict(self._data)", "            data = dict(self._data)", "C19.R2"),
+    Twin("copy hook renamed, no longer called by model_copy()", _PE, "    def model_copy(\n        self, *, update: Mapping[str, Any] | None = None, deep: bool = False\n    ) -> Self:",
+         "    def clone(\n        self, *, update: Mapping[str, Any] | None = None, deep: bool = False\n    ) -> Self:", "C19.R2"),
     # ---- R2 benign
     Twin("benign: memory get_state through a local", _PM, "        return self._state.model_copy()", "        current = self._state\n        return current.model_copy()", None),
     Twin("benign: sqlite get_state inlined", _PS, "        state = self._load_state()\n        return state.model_copy()", "        return self._load_state().model_copy()", None),
-    Twin("benign: memory get_state deep copy (repair)", _PM, "        return self._state.model_copy()", "        return self._state.model_copy(deep=True)", None),
-    Twin("benign: DictLikeModel copy hook re-creates _data (repair)", _PE, "    def __getitem__(self, key: str) -> Any:\n        return self._data[key]\n",
-         "    def __getitem__(self, key: str) -> Any:\n        return self._data[key]\n\n    def model_copy(self, *, update: Any = None, deep: bool = False) -> Any:\n"
-         "        copied = super().model_copy(update=update, deep=deep)\n        if not deep:\n            copied._data = dict(self._data)\n        return copied\n", None),
-    Twin("benign: copy hook that forgets _data stays reported, nothing new", _PE, "    def __getitem__(self, key: str) -> Any:\n        return self._data[key]\n",
-         "    def __getitem__(self, key: str) -> Any:\n        return self._data[key]\n\n    def model_copy(self, *, update: Any = None, deep: bool = False) -> Any:\n"
-         "        return super().model_copy(update=update, deep=deep)\n", None),
+    Twin("benign: memory get_state deep copy", _PM, "        return self._state.model_copy()", "        return self._state.model_copy(deep=True)", None),
+    Twin("benign: copy hook uses .copy()", _PE, "            copied._data = dict(self._data)", "            copied._data = self._data.copy()", None),
+    Twin("benign: copy hook uses a dict display", _PE, "            copied._data = dict(self._data)", "            copied._data = {**self._data}", None),
+    Twin("benign: copy hook sets the private attribute through object.__setattr__", _PE, "            copied._data = dict(self._data)",
+         "            object.__setattr__(copied, \"_data\", dict(self._data))", None),
 ]
